@@ -17,6 +17,8 @@ pub(crate) fn parse_symbol<R: Read>(scanner: &mut Scanner<R>) -> Result<Symbol, 
     }
 
     while !scanner.is_eof && (scanner.is_alpha_num() || scanner.is_any_of("~:-._")) {
+        #[cfg(feature = "verif-hooks")]
+        crate::haystack::verif_hooks::tick(crate::haystack::verif_hooks::SITE_LOOP);
         symbol.push(scanner.cur);
 
         scanner.advance()?
